@@ -1,5 +1,6 @@
 """C02 — send()/resend() report the true fate of the payload and always terminate."""
 import itertools
+import re
 from harness.framework import *
 from harness.rfsession import run_line, parse_out
 from harness.gen_rf import rbytes
@@ -115,6 +116,13 @@ class C02(PropCheck):
         n = 250 if tier == "quick" else 4000
         cs += [(session(rng, rand_cfg(rng), rng.randint(2, 10)), "random") for _ in range(n)]
         cs += [(l, "ack-payload-stale") for l in stale_ack_sessions(rng, n // 2)]
+        # the same kinds of sessions with send()/resend() called without their optional parameters (judge_defaults:
+        # must behave like ask_no_ack=False, force_retry=0, send_only=False written out)
+        for l in [session(rng, rand_cfg(rng), rng.randint(2, 10)) for _ in range(n // 4)] + stale_ack_sessions(rng, n // 8):
+            l2 = re.sub(r" a send (\S+) F 0 F( ;|$)", r" a dflt send \1\2", l)
+            l2 = re.sub(r" a resend F( ;|$)", r" a dflt resend\1", l2)
+            if l2 != l:
+                cs.append((l2, "documented-defaults"))
         return cs
 
     def nontrivial(self, line, io):
@@ -123,7 +131,7 @@ class C02(PropCheck):
     def judge(self, triples):
         out = []
         for l, io, mo in triples:
-            if not l.startswith("rf 2 1 new a rf24 0 ; new b rf24 1 ; a enter ; b enter"):
+            if not l.startswith("rf 2 1 new a rf24 0 ; new b rf24 1 ; a enter ; b enter") or " dflt " in l:
                 continue
             names, ops = l.split(" ; "), parse_out(io)
             what = None
@@ -254,6 +262,8 @@ class C02(PropCheck):
                     failed = left[0] if left else None
             if what:
                 out.append(Finding(l, f"op {k} `{name}`: {what}", {"op_index": k}))
+        seen = {f.case for f in out}
+        out += [f for f in judge_defaults(triples, self.impl) if f.case not in seen]
         return out
 
 
